@@ -9,7 +9,7 @@ From Coq Require Import List NArith Bool.
 From Verif.Common Require Import Labels Packet.
 From Coq Require Import Sorting.Permutation.
 From Verif.Common Require PolicyRef.
-From Verif.C29 Require Import Model Spec ProofsSel ProofsPorts ProofsMain ProofsOrder ProofsValid ProofsBridge Proofs.
+From Verif.C29 Require Import Model Spec ProofsSel ProofsPorts ProofsMain ProofsOrder ProofsValid ProofsBridge ProofsHistory Proofs.
 Import ListNotations.
 Open Scope N_scope.
 
@@ -111,6 +111,27 @@ Theorem c29_order_irrelevant : forall infer nps qs cl c,
   cal_allows qs (cparty_of cl (c_src c)) (cparty_of cl (c_dst c)) (c_proto c) (c_dport c) = k8s_allows nps cl c.
 Proof. exact order_irrelevant. Qed.
 Print Assumptions c29_order_irrelevant.
+
+(* PURITY.  One process converts many objects one after the other (Kubernetes policies and Calico policies that go
+   through the same update processors).  In the model a step receives the whole history and ignores it, so a policy
+   converted after ANY history, any number of times, gets the same model.Policy; the correspondence run checks the
+   real pipeline against this on generated histories (foreign Calico policies using the same selector texts under
+   the pcsa./pcns. prefixes before and between the Kubernetes policies; every policy converted twice, both orders). *)
+Theorem c29_history_independent : forall infer h1 h2 before1 before2 np,
+  last (run_pipeline infer h1 (before1 ++ [IK8s np])) None = last (run_pipeline infer h2 (before2 ++ [IK8s np])) None
+  /\ last (run_pipeline infer h1 (before1 ++ [IK8s np])) None = Some (conv_np_v infer np).
+Proof. exact history_independent. Qed.
+Print Assumptions c29_history_independent.
+
+(* the main theorem for the policies as they come out of any history of the pipeline *)
+Theorem c29_same_meaning_any_history : forall infer hist todo cl c,
+  forallb k8s_np_valid (k8s_items todo) = true ->
+  forallb np_keys_ok (k8s_items todo) = true ->
+  forallb (types_defaulted infer) (k8s_items todo) = true ->
+  cal_allows (outputs (run_pipeline infer hist todo)) (cparty_of cl (c_src c)) (cparty_of cl (c_dst c)) (c_proto c) (c_dport c)
+  = k8s_allows (k8s_items todo) cl c.
+Proof. exact same_meaning_any_history. Qed.
+Print Assumptions c29_same_meaning_any_history.
 
 (* Bridge to the shared reference semantics Common/PolicyRef.v (felix/proto rules over IP sets): with the IP sets
    defined from the selectors / named ports (what the calculation graph has to compute; `who` maps an address to
